@@ -533,6 +533,7 @@ pub fn wiring_and_interface_check(u: &Universe, st: &State, bytes: &[u8], define
                 }
             }
         }
+        v.extend(members_and_dependencies(u, m, &d, &want_imports, mode));
         if d.imports.len() != d.imports.iter().map(|(n, _)| n).collect::<BTreeSet<_>>().len() {
             v.push((format!("{p}/interface/duplicate-import/{mode}"), format!("{:?}", d.imports)));
         }
@@ -564,6 +565,148 @@ pub fn wiring_and_interface_check(u: &Universe, st: &State, bytes: &[u8], define
         let listing_nodep: BTreeSet<String> = listing.iter().filter(|n| !u.dependency_imports.iter().any(|d| track_key(d) == **n)).cloned().collect();
         if listing_nodep != encoded {
             v.push((format!("{p}/interface/imports-listing/{mode}"), format!("imports() tracks {listing:?}; encoded {encoded:?}")));
+        }
+    }
+    v
+}
+
+/// Members of instance imports and the dependency rule of C03 ("and the interfaces those types
+/// depend on"), for libraries described through the reference validator (`PkgSpec::import_members`
+/// / `import_deps`): (i) an implicit import offers exactly the union of the members its sharers
+/// need, each at a type one of them requires; (ii) an explicit import offers exactly its kind's
+/// members; (iii) whenever an import (implicit or explicit) has a type that depends on another
+/// interface, that interface is imported (some name on its track), and an import that is neither
+/// implied nor depended upon is an extra import; (iv) an import present only as a dependency
+/// offers nothing the contributors' packages do not know of that interface.
+fn members_and_dependencies(u: &Universe, m: &Model, d: &Decoded, want_imports: &BTreeMap<String, (Kind, Option<String>)>, mode: &str) -> Vec<Viol> {
+    let p = u.prop;
+    let mut v: Vec<Viol> = Vec::new();
+    if u.pkgs.iter().all(|p| p.import_members.is_empty()) {
+        return v;
+    }
+    let cx = u.cx();
+    // track -> member -> admissible canonical types
+    let mut need: BTreeMap<String, BTreeMap<String, BTreeSet<String>>> = BTreeMap::new();
+    // track of a dependency -> (who needs it, members the packages know of it)
+    let mut required: BTreeMap<String, (String, BTreeSet<String>, BTreeSet<String>)> = BTreeMap::new();
+    // interfaces a type is used THROUGH (`k` uses `j.rec`, which `j` uses from `t`): the type may be
+    // taken from any link of the chain, so only the root of the chain is required
+    let mut through: BTreeSet<String> = BTreeSet::new();
+    let mut add_deps = |who: String, pkg: &crate::lib_spec::PkgSpec, slot: &str, required: &mut BTreeMap<String, (String, BTreeSet<String>, BTreeSet<String>)>| {
+        for (o, om) in pkg.import_uses.get(slot).into_iter().flat_map(|m| m.values()) {
+            let (mut o, mut om) = (o.clone(), om.clone());
+            let mut guard = 0;
+            while let Some((o2, om2)) = pkg.import_uses.get(&o).and_then(|m| m.get(&om)).cloned() {
+                through.insert(track_key(&o));
+                o = o2;
+                om = om2;
+                guard += 1;
+                if guard > 16 {
+                    break;
+                }
+            }
+            let e = required.entry(track_key(&o)).or_insert_with(|| (who.clone(), BTreeSet::new(), BTreeSet::new()));
+            if let Some(mem) = pkg.import_members.get(&o) {
+                e.1.extend(mem.keys().cloned());
+            }
+            e.2.insert(om);
+        }
+    };
+    for (inst, slot, _) in m.unsatisfied(&cx) {
+        let pkg = &u.pkgs[m.nodes[&inst].pkg.unwrap()];
+        if let Some(mem) = pkg.import_members.get(slot) {
+            let e = need.entry(track_key(slot)).or_default();
+            for (k, c) in mem {
+                e.entry(k.clone()).or_default().insert(c.clone());
+            }
+        }
+        add_deps(format!("implicit import `{slot}` of instantiation {inst}"), pkg, slot, &mut required);
+    }
+    for (name, id) in &m.imports {
+        let RItem::Ty(t) = &m.nodes[id].item else { continue };
+        let Some(k) = u.import_kinds.iter().position(|x| x == t) else { continue };
+        let Some((pk, slot)) = u.import_kind_origin.get(k).cloned().flatten() else { continue };
+        let pkg = &u.pkgs[pk];
+        if let (Some(mem), Some(got)) = (pkg.import_members.get(&slot), d.import_members.get(name)) {
+            if mem != got {
+                v.push((
+                    format!("{p}/interface/explicit-import-members/{mode}"),
+                    format!("explicit import `{name}` offers {got:?}; its kind has {mem:?}"),
+                ));
+            }
+        }
+        add_deps(format!("explicit import `{name}`"), pkg, &slot, &mut required);
+    }
+    // (i)
+    for (name, (kind, _)) in want_imports {
+        if *kind != Kind::Instance || m.imports.contains_key(name) {
+            continue;
+        }
+        let (Some(want), Some(got)) = (need.get(&track_key(name)), d.import_members.get(name)) else { continue };
+        // a dependant adds the types it uses (at least) and what its package knows of the interface (at most)
+        let (known, used) = required.get(&track_key(name)).map(|(_, k, u)| (k.clone(), u.clone())).unwrap_or_default();
+        let missing: Vec<&String> = want.keys().chain(used.iter()).filter(|n| !got.contains_key(*n)).collect();
+        let extra: Vec<&String> = got.keys().filter(|n| !want.contains_key(*n) && !known.contains(*n)).collect();
+        if !missing.is_empty() || !extra.is_empty() {
+            v.push((
+                format!("{p}/interface/implicit-import-members/{mode}/missing-{}/extra-{}", missing.len().min(1), extra.len().min(1)),
+                format!(
+                    "implicit import `{name}` offers members {:?}; its sharers need the union {:?} (types used by dependants: {used:?}); missing {missing:?}, extra {extra:?}",
+                    got.keys().collect::<Vec<_>>(),
+                    want.keys().collect::<Vec<_>>()
+                ),
+            ));
+        } else {
+            for (k, cands) in want {
+                if !cands.contains(&got[k]) {
+                    v.push((
+                        format!("{p}/interface/implicit-import-member-type/{mode}"),
+                        format!("member `{k}` of implicit import `{name}` has type {}; the sharers require {cands:?}", got[k]),
+                    ));
+                }
+            }
+        }
+    }
+    // (iii) + (iv)
+    let want_tracks: BTreeSet<String> = want_imports.keys().map(|n| track_key(n)).collect();
+    for (t, (who, known, used)) in &required {
+        match d.imports.iter().find(|(n, _)| track_key(n) == *t) {
+            None => v.push((
+                format!("{p}/interface/dependency-import-missing/{mode}"),
+                format!("the type of {who} depends on interface `{t}`, which the encoding does not import (imports: {:?})", d.imports),
+            )),
+            Some((n, _)) => {
+                if !want_tracks.contains(t) {
+                    if let Some(got) = d.import_members.get(n) {
+                        let lacking: Vec<&String> = used.iter().filter(|k| !got.contains_key(*k)).collect();
+                        if !lacking.is_empty() {
+                            v.push((
+                                format!("{p}/interface/dependency-import-lacks-used-type/{mode}"),
+                                format!("import `{n}`, present because {who} depends on it, lacks the used types {lacking:?}"),
+                            ));
+                        }
+                        let unknown: Vec<&String> = got.keys().filter(|k| !known.contains(*k)).collect();
+                        if !unknown.is_empty() {
+                            v.push((
+                                format!("{p}/interface/dependency-import-members/{mode}"),
+                                format!("import `{n}`, present only because {who} depends on it, offers {unknown:?}, which no contributor's view of that interface has"),
+                            ));
+                        }
+                    }
+                }
+            }
+        }
+    }
+    for (n, k) in &d.imports {
+        if *k == Kind::Component && n.starts_with("unlocked-dep=") {
+            continue;
+        }
+        let t = track_key(n);
+        if !want_tracks.contains(&t) && !required.contains_key(&t) && !through.contains(&t) {
+            v.push((
+                format!("{p}/interface/import-neither-implied-nor-depended-upon/{mode}"),
+                format!("import `{n}` is not an explicit import, not an unsatisfied argument and no imported type depends on it"),
+            ));
         }
     }
     v
